@@ -284,7 +284,7 @@ func optInt64(o OptInt) *int64 {
 type builder struct {
 	e        *Embedding
 	fallback bool
-	literal  bool // units definitions as struct literals (&UnitsDefinition{...}) instead of NewUnits
+	literal  bool // units definitions, scalars and enums as struct literals (&UnitsDefinition{...}, &IntEnumSchema{...}) instead of New*
 }
 
 func (b *builder) intBound(o OptInt) (*int64, error) {
@@ -331,6 +331,34 @@ func BuildLiteralUnits(s *Schema, e *Embedding) (*Built, error) {
 	return &Built{Type: t}, nil
 }
 
+// HasLiteralRoute reports whether the schema has a second construction route worth running: units definitions or
+// enums anywhere (struct literals: no constructor has prepared caches / display data), or a scalar at the root.
+func (s *Schema) HasLiteralRoute() bool {
+	switch s.Kind {
+	case "int", "float", "string", "enum_int", "enum_string":
+		return true
+	}
+	return s.HasUnits() || s.hasEnum()
+}
+
+func (s *Schema) hasEnum() bool {
+	switch s.Kind {
+	case "enum_int", "enum_string":
+		return true
+	case "list":
+		return s.Items.hasEnum()
+	case "map":
+		return s.Keys.hasEnum() || s.Vals.hasEnum()
+	case "object":
+		for _, p := range s.Props {
+			if p.Type.hasEnum() {
+				return true
+			}
+		}
+	}
+	return false
+}
+
 // HasUnits reports whether a units definition occurs in the schema.
 func (s *Schema) HasUnits() bool {
 	switch s.Kind {
@@ -366,6 +394,10 @@ func (b *builder) build(s *Schema) (schema.Type, typed, error) {
 		if err != nil {
 			return nil, nil, err
 		}
+		if b.literal { // the exported fields, no constructor
+			t := &schema.IntSchema{MinValue: min, MaxValue: max, UnitsValue: u}
+			return t, tnode[int64]{t}, nil
+		}
 		t := schema.NewIntSchema(min, max, u)
 		return t, tnode[int64]{t}, nil
 	case "float":
@@ -381,6 +413,10 @@ func (b *builder) build(s *Schema) (schema.Type, typed, error) {
 		if err != nil {
 			return nil, nil, err
 		}
+		if b.literal {
+			t := &schema.FloatSchema{MinValue: min, MaxValue: max, UnitsValue: u}
+			return t, tnode[float64]{t}, nil
+		}
 		t := schema.NewFloatSchema(min, max, u)
 		return t, tnode[float64]{t}, nil
 	case "string":
@@ -391,6 +427,10 @@ func (b *builder) build(s *Schema) (schema.Type, typed, error) {
 				return nil, nil, fmt.Errorf("unknown pattern id %q", s.Pattern.V)
 			}
 			re = regexp.MustCompile(src)
+		}
+		if b.literal {
+			t := &schema.StringSchema{MinValue: optInt64(s.Min), MaxValue: optInt64(s.Max), PatternValue: re}
+			return t, tnode[string]{t}, nil
 		}
 		t := schema.NewStringSchema(optInt64(s.Min), optInt64(s.Max), re)
 		return t, tnode[string]{t}, nil
@@ -415,6 +455,10 @@ func (b *builder) build(s *Schema) (schema.Type, typed, error) {
 		if err != nil {
 			return nil, nil, err
 		}
+		if b.literal { // a struct literal (or a JSON document {"values":{"1":null}}): the values carry NO display data
+			t := &schema.IntEnumSchema{EnumSchema: schema.EnumSchema[int64, int64]{ValidValuesMap: vals}, IntUnits: u}
+			return t, tnode[int64]{t}, nil
+		}
 		t := schema.NewIntEnumSchema(vals, u)
 		return t, tnode[int64]{t}, nil
 	case "enum_string":
@@ -427,6 +471,10 @@ func (b *builder) build(s *Schema) (schema.Type, typed, error) {
 				}
 				vals[NamedStr(txt)] = nil
 			}
+			if b.literal {
+				t := &schema.TypedStringEnumSchema[NamedStr]{EnumSchema: schema.EnumSchema[string, NamedStr]{ValidValuesMap: vals}}
+				return t, tenum{t}, nil
+			}
 			t := schema.NewTypedStringEnumSchema[NamedStr](vals)
 			return t, tenum{t}, nil
 		}
@@ -437,6 +485,11 @@ func (b *builder) build(s *Schema) (schema.Type, typed, error) {
 				return nil, nil, err
 			}
 			vals[txt] = nil
+		}
+		if b.literal {
+			t := &schema.StringEnumSchema{TypedStringEnumSchema: schema.TypedStringEnumSchema[string]{
+				EnumSchema: schema.EnumSchema[string, string]{ValidValuesMap: vals}}}
+			return t, tnode[string]{t}, nil
 		}
 		t := schema.NewStringEnumSchema(vals)
 		return t, tnode[string]{t}, nil
@@ -633,6 +686,8 @@ func (b *builder) object(s *Schema) (schema.Type, typed, error) {
 		t, n = structObject[catalog.Outer](s.ID, props, s.Typed)
 	case "strs":
 		t, n = structObject[catalog.Strs](s.ID, props, s.Typed)
+	case "opts":
+		t, n = structObject[catalog.Opts](s.ID, props, s.Typed)
 	default:
 		return nil, nil, fmt.Errorf("unknown layout %q", s.Layout)
 	}
